@@ -1,6 +1,9 @@
 (** C08 - float text I/O is lossless and base/precision changes are faithfully rounded. Statements only. *)
+From Coq Require Import Reals.
+From Flocq Require Import Core.Core IEEE754.Binary IEEE754.Bits.
 From Dashu Require Import Base.Prelude Float.RoundSpec Float.RoundSpecProof Float.Contract Float.Model Float.ModelProof
-  Int.IoSpec Float.TextIoSpec Float.TextIoModel Float.BaseConvProof Float.TextIoProof Float.SciProof Float.ParseProof Float.ParseSound Float.TextIoExamples.
+  Int.IoSpec Float.TextIoSpec Float.TextIoModel Float.BaseConvProof Float.TextIoProof Float.SciProof Float.ParseProof Float.ParseSound Float.TextIoExamples
+  Conv.ConvSpec Conv.ConvModel Float.IeeeImportProof.
 From DashuGen Require Import RoundTables.
 Open Scope Z_scope.
 
@@ -155,6 +158,47 @@ Theorem C08_convert_small_neg : forall NB, 2 <= NB -> forall B p m s e, NB <> B 
   (p + dlen NB d < dlen NB n -> convert_base_asis B NB p m s e = div_long NB p m n ne d de).
 Proof. exact convert_small_neg. Qed.
 Print Assumptions C08_convert_small_neg.
+
+(** ** import of IEEE floats: TryFrom<f32/f64> for Repr<2> / FBig<R,2> as written (the decoder is C06's as-is
+    model of f32::decode / f64::decode, proved there) = the specification, which is exact: for every bit
+    pattern that is neither an infinity nor a NaN the imported float s * 2^e is the real number the pattern
+    denotes according to Flocq's definition of binary32 / binary64, and s fits the declared precision *)
+
+Theorem C08_from_f32_asis_spec : forall bits, 0 <= bits < 2 ^ 32 -> from_ieee_asis P32 bits = from_ieee_spec 23 8 bits.
+Proof. exact from_f32_asis_spec. Qed.
+Print Assumptions C08_from_f32_asis_spec.
+
+Theorem C08_from_f64_asis_spec : forall bits, 0 <= bits < 2 ^ 64 -> from_ieee_asis P64 bits = from_ieee_spec 52 11 bits.
+Proof. exact from_f64_asis_spec. Qed.
+Print Assumptions C08_from_f64_asis_spec.
+
+Theorem C08_from_ieee_spec_exact : forall mw ew bits m x s e p,
+  ieee_decode mw ew bits = IFinite m x -> from_ieee_spec mw ew bits = Some (s, e, p) ->
+  (m = 0 -> s = 0 /\ e = 0) /\
+  (m <> 0 -> s mod 2 <> 0 /\ exists k, 0 <= k /\ e = x + k /\ m = s * 2 ^ k) /\
+  p = bit_len m /\ dlen 2 s <= p.
+Proof. exact from_ieee_spec_exact. Qed.
+Print Assumptions C08_from_ieee_spec_exact.
+
+Theorem C08_from_f32_exact : forall bits s e p, 0 <= bits < 2 ^ 32 -> from_ieee_asis P32 bits = Some (s, e, p) ->
+  B2R 24 128 (b32_of_bits bits) = (IZR s * bpow radix2 e)%R /\ dlen 2 s <= p.
+Proof. exact from_f32_exact. Qed.
+Print Assumptions C08_from_f32_exact.
+
+Theorem C08_from_f64_exact : forall bits s e p, 0 <= bits < 2 ^ 64 -> from_ieee_asis P64 bits = Some (s, e, p) ->
+  B2R 53 1024 (b64_of_bits bits) = (IZR s * bpow radix2 e)%R /\ dlen 2 s <= p.
+Proof. exact from_f64_exact. Qed.
+Print Assumptions C08_from_f64_exact.
+
+Theorem C08_from_f32_none_iff : forall bits, 0 <= bits < 2 ^ 32 ->
+  (from_ieee_asis P32 bits = None <-> is_finite 24 128 (b32_of_bits bits) = false).
+Proof. exact from_f32_none_iff. Qed.
+Print Assumptions C08_from_f32_none_iff.
+
+Theorem C08_from_f64_none_iff : forall bits, 0 <= bits < 2 ^ 64 ->
+  (from_ieee_asis P64 bits = None <-> is_finite 53 1024 (b64_of_bits bits) = false).
+Proof. exact from_f64_none_iff. Qed.
+Print Assumptions C08_from_f64_none_iff.
 
 (** ** the defects found, as theorems about the old behaviour / the observed answers *)
 
